@@ -469,7 +469,7 @@ def run(ctx: C.Ctx):
         pool = rng.sample(S.STMT_SPECS, rng.randint(2, 5))
         # pre-filled sets: keys of declarations, and arbitrary tuples made of the statement texts of the pool (a statement must not care)
         texts_ = [str(a) for sp in pool for a in sp[1:2]]
-        pm = rng.choice([[], [], [["led", "13"]], [[t] for t in texts_], [[sp[0], str(sp[1])] for sp in pool], [["pin_mode", t] for t in texts_],
+        pm = rng.choice([[], [], [["led", "13"]], [[t] for t in texts_], [[sp[0]] + [str(a) for a in sp[1:2]] for sp in pool], [["pin_mode", t] for t in texts_],
                          [["bz", "8", "OUTPUT"], ["mot", "4", "in1"]]])
         us = rng.choice([[], [], [["us", "2", "OUTPUT"]]])
         es_cases.append((rng.random() < 0.7, rng.choice(["", "  ", "    "]), pm, us, S.gen_sn(rng, 0, rng.choice([1, 2, 3]), pool)))
